@@ -46,6 +46,11 @@ func New(path string) (*Writer, error) {
 // Reset starts a new run (execution); the trace specs re-initialise on it.
 func (w *Writer) Reset(run int, fields E) {
 	w.mu.Lock()
+	// everything of the earlier runs goes to disk now: should the process die in this run (a panic in
+	// a goroutine the library created cannot be recovered), the file still holds them completely
+	if w.w != nil {
+		w.w.Flush()
+	}
 	w.run = run
 	w.seq = 0
 	w.Mem = w.Mem[:0]
